@@ -123,6 +123,20 @@ theorem edgeFace_ok {n0 n1 ix iy jx jy : Nat} (h : EdgeOk n0 n1 ix iy jx jy) :
     by_cases e : ix = jx <;> simp [e]
   simp only [edgeFace, nn, Bool.not_true, Bool.false_eq_true, if_false, c1, m1, m2, eb]
 
+/-- … and its rejections: not a nearest-neighbour pair, or smaller corner outside the rectangle: `ValueError` -/
+theorem edgeFace_err (n0 n1 : Nat) (i j : Int × Int)
+    (h : isNN i j = false ∨ min i.1 j.1 < 0 ∨ min i.2 j.2 < 0 ∨ min i.1 j.1 ≥ (n0 : Int) ∨ min i.2 j.2 ≥ (n1 : Int)) :
+    edgeFace n0 n1 i j = .error .valueError := by
+  unfold edgeFace
+  by_cases nn : isNN i j = true
+  · have c : min i.1 j.1 < 0 ∨ min i.2 j.2 < 0 ∨ min i.1 j.1 ≥ (n0 : Int) ∨ min i.2 j.2 ≥ (n1 : Int) := by
+      rcases h with h | h
+      · rw [nn] at h; cases h
+      · exact h
+    simp only [nn, Bool.not_true, Bool.false_eq_true, if_false, c, if_true]
+  · have nn' : isNN i j = false := by simpa using nn
+    simp only [nn', Bool.not_false, if_true]
+
 /-! ### edge operator: the four orientations -/
 
 set_option hygiene false in
